@@ -252,6 +252,11 @@ func (s *CDX) dependencies(ctx context.Context, bom *sbom.Document) ([]cdx.Depen
 		case sbom.Edge_contains:
 			// Make sure we have the target component
 			for _, targetID := range e.To {
+				// A component cannot be nested in itself: the copy appended to its
+				// own list would share that list and form a cycle.
+				if targetID == e.From {
+					continue
+				}
 				state.addedDict[targetID] = struct{}{}
 				if _, ok := state.componentsDict[targetID]; !ok {
 					return nil, fmt.Errorf("unable to locate node %s", targetID)
